@@ -4,7 +4,7 @@ from . import core, plan
 from .core import ROOT
 
 TIERS = {
-    'quick': {'k2_ns': [1, 2], 'k2_ns_light': [1, 2, 3], 'k2_timeout': 300, 'k1_timeout': 420,
+    'quick': {'k2_ns': [1, 2], 'k2_ns_light': [1, 2, 3], 'k2_timeout': 450, 'k1_timeout': 480,
               'k1': {'lru': 5, 'mru': 5, 'rr': 6, 'fifo': 4, 'lfu': 0, 'tlru': 3, 'utlru': 3, 'lfuda': 0, 'utmap': 0, 'utset': 0},
               'k1_n': 2, 'lift_extra': 2, 'lift_timeout': 420},
     'thorough': {'k2_ns': [1, 2, 3], 'k2_ns_light': [1, 2, 3, 4], 'k2_timeout': 3600, 'k1_timeout': 3600,
@@ -410,6 +410,24 @@ def lift_and_replay(ev, num, q, clause_prop=None):
     return reproduced, path, info
 
 
+def rehash_probe(ev, cont, cap=64):
+    lines = ['cfg 1000000 1000000', 'mlf4 1']
+    for k in range(1, 41):
+        lines.append('%d %d %d 3 0 1000000 0 0' % (plan.OP['insert'], k, 100 + k))
+    lines.append('%d 1 0 3 0 0 0 0' % plan.OP['erase'])
+    lines.append('%d 2 0 3 0 0 0 0' % plan.OP['find'])
+    lines.append('draws ' + ' '.join(['0'] * 16))
+    hdr = '# cont=%s n=%d ts=no prop=8 variant=san' % (cont, cap)
+    os.makedirs(os.path.join(ROOT, 'replays'), exist_ok=True)
+    path = os.path.join(ROOT, 'replays', 'C08-%s-rehash-probe.hist' % cont)
+    open(path, 'w').write(hdr + '\n' + '\n'.join(lines) + '\n')
+    res = replay_history(path)
+    info = {'kind': 'fill-then-erase at capacity %d, max_load_factor 0.25, checked iterators + ASan/UBSan' % cap, 'history': path,
+            'replay_rc': res['rc'], 'reproduced': bool(res.get('ub')), 'tail': res['out'][-500:]}
+    ev.replays.append(info)
+    return bool(res.get('ub')), path, info
+
+
 def spread_replay(ev, num, n):
     exe = core.build_aux('spread', 'rr', n, 0, ts='no')
     res = core.run_aux(exe)
@@ -808,6 +826,21 @@ def finish(ev, num, tier, qs, known, extra_violations=()):
         msg = 'K2 step %s: assertion(s) %s fail from an invariant state that no explored history reaches (not reported as a violation)' % (q.name, bad[:6])
         ev.inconclusive.append(msg)
         print('INCONCLUSIVE property=%s %s' % (pid, msg))
+    # ---- C08, hash-table sizing: the vstd rehash contract (an insertion not covered by reserve() / the bucket count under
+    # the configured max_load_factor may rehash, which invalidates the iterators libcappuccino stores) fails at every
+    # capacity, but libstdc++ really rehashes a second time only from about 16 elements on: replay a fill-then-erase
+    # history at capacity 64 with max_load_factor 0.25 on the checked-iterator / sanitizer build
+    if num == 8:
+        failed_conts = sorted({q.meta['cont'] for q, _ in list(k2_fail) + list(k1_fail) + list(cnt_fail)})
+        for cont in failed_conts:
+            if cont in reproduced_conts or cont in ('utmap', 'utset'):
+                continue
+            ok, path, info = rehash_probe(ev, cont)
+            if ok:
+                violations.append((path, '%s: the encoding shows an insertion that may rehash the key index while iterators into it are stored '
+                                   '(max_load_factor below 1); at capacity 64 with max_load_factor 0.25 the checked iterators / sanitizers abort on the real build' % cont))
+                reproduced_conts.add(cont)
+                ev.inconclusive = [m for m in ev.inconclusive if (' k2_%s_' % cont) not in m and (' k1_%s_' % cont) not in m and ('cnt_%s_' % cont) not in m]
     # ---- known-finding probes
     for q in qs:
         key = q.meta.get('kf_probe')
